@@ -1,6 +1,6 @@
-"""Probe (not a demo of an applied fix): what a PENDING AsyncResult says after its connection has ended.
+"""Demo for C11-pending-results-fail-at-the-end.patch: what a PENDING AsyncResult says after its connection has ended.
 
-    RPYC_REPO=/repo python probe_C11_pending_result_after_end.py
+    RPYC_REPO=/repo python demo_C11_pending_results_fail_at_the_end.py      (exit 1 = FAIL before the patch, 0 = PASS with it)
 
 A request is in flight, the peer goes away (or this side closes).  `ar.wait()` / `ar.value` raise EOFError (they call
 serve(), which meets the end).  But the polling idioms never learn about the end:
@@ -49,10 +49,21 @@ def scenario(how):
     except Exception as ex:  # noqa
         w = type(ex).__name__
     print("%-12s ar.wait() -> %s;  afterwards ready=%s error=%s callbacks run=%d" % ("", w, ar.ready, ar.error, len(fired)))
-    return ar.ready or len(fired) > 0
+    try:
+        ar.value
+        v = 'a value'
+    except EOFError:
+        v = 'EOFError'
+    except Exception as ex:  # noqa
+        v = type(ex).__name__
+    print('%-12s ar.value -> %s' % ('', v))
+    return bool(ar.ready and ar.error and len(fired) == 1 and v == 'EOFError')
 
 
 if __name__ == "__main__":
     told = [scenario("local close"), scenario("peer gone")]
-    print("CONFIRMED: a pending result is never completed by the end of its connection" if not any(told)
-          else "NOT CONFIRMED: the end of the connection completed the pending result")
+    if all(told):
+        print("PASS: the end of the connection completed the pending result (ready, an error; its callback ran once)")
+        sys.exit(0)
+    print("FAIL: a pending result is never completed by the end of its connection")
+    sys.exit(1)
